@@ -9,9 +9,11 @@ for f in sorted(glob.glob('/verif/seeded/*/meta.json')):
     own = m['property'] in det
     what = m.get('what', '')
     needs = m.get('needs', '')
-    rows.append((m['seed'], m['property'], 'yes' if ok else 'NO', ', '.join(det) if det else '— (missed)', 'yes' if own else 'no', what, needs))
-print('| seed | breaks | confirmed | caught by (quick tier) | own check | change | needs |')
-print('|---|---|---|---|---|---|---|')
+    first = m.get('first_detected_by', det)
+    blind = '' if sorted(first) == sorted(det) else ('first run: ' + (', '.join(first) if first else 'missed'))
+    rows.append((m['seed'], m['property'], 'yes' if ok else 'NO', ', '.join(det) if det else '— (missed)', 'yes' if own else 'no', blind, what, needs))
+print('| seed | breaks | confirmed | caught by (quick tier) | own check | blind | change | needs |')
+print('|---|---|---|---|---|---|---|---|')
 for r in rows:
     print('| ' + ' | '.join(r) + ' |')
 missed = [r for r in rows if r[3].startswith('—')]
